@@ -7,7 +7,6 @@ use crate::model::data::*;
 use crate::model::pipeline::*;
 use crate::model::value::{V, readback, same};
 use garnish_lang_simple_data::symbol_value;
-use garnish_lang_traits::GarnishData;
 
 pub struct C14Check;
 pub static C14: C14Check = C14Check;
